@@ -75,6 +75,12 @@ impl Scenario for ChaosCli {
         if run_seed % 10 < 4 {
             v["cyclic_seed"] = serde_json::json!(run_seed ^ 0xc7c1);
         }
+        if run_seed % 7 == 3 {
+            // "very large": one generated-data module whose single expression has tens of thousands of terms
+            if let Some(a) = v["bad_files"].as_array_mut() {
+                a.push(serde_json::json!(["data/big_table_test.py", "deep-expression"]));
+            }
+        }
         v
     }
     fn exec(&self, input: &Value) -> RunOut {
@@ -131,7 +137,14 @@ impl Scenario for ChaosCli {
                     out.count("child_processes", 1);
                     out.state_hash = mix(out.state_hash, fnv(&so));
                     if !(code == 0 || code == 1) || se.contains("panicked") || se.contains("CHILD-ABORT") {
-                        let class = if se.contains("panicked") || se.contains("Panic") { panic_class(se.lines().find(|l| l.contains("CHILD-ABORT") || l.contains("panicked")).unwrap_or("")) } else { "cli-abnormal-exit".to_string() };
+                        let deep = inp.bad_files.iter().any(|(_, k)| k == "deep-expression");
+                        let class = if se.contains("panicked") || se.contains("Panic") {
+                            panic_class(se.lines().find(|l| l.contains("CHILD-ABORT") || l.contains("panicked")).unwrap_or(""))
+                        } else if deep && (code == -1 || code == 134 || se.contains("overflowed its stack")) {
+                            "RC-DEEP-EXPRESSION-STACK-OVERFLOW".to_string()
+                        } else {
+                            "cli-abnormal-exit".to_string()
+                        };
                         out.violate(&class, format!("`{}` exited with status {} on a hostile workspace; stderr: {}", argv[..2].join(" "), code, super::batch::clip(&se, 500)));
                     }
                     if argv.contains(&"json") && serde_json::from_str::<Value>(&so).is_err() {
@@ -503,6 +516,14 @@ fn write_bad(root: &Path, path: &str, kind: &str) {
         }
         "empty" => {
             let _ = std::fs::write(&p, "");
+        }
+        "deep-expression" => {
+            let mut t = String::from("import pytest\n\n@pytest.fixture\ndef table():\n    return TABLE\n\nTABLE = 1");
+            for _ in 0..60_000 {
+                t.push_str(" + 1");
+            }
+            t.push('\n');
+            let _ = std::fs::write(&p, t);
         }
         "nul-bytes" => {
             let _ = std::fs::write(&p, "import pytest\n\0\0\0@pytest.fixture\ndef z(): pass\n");
